@@ -15,6 +15,7 @@ RULE = ("BFS over histories: roots = numeric (flat and column-vector), symbolic 
         "with numbers rounded at 1e-12 and expressions by srepr) - the representation is part of the state because element access and roll-back depend on it; every transition is compared with a plain-list reference model and the invariant is "
         "evaluated in every state. non-trivial state = reached by at least one accepted or rejected mutation; plus constructor rejections, Dicke states "
         "for all n<=N,k<=n, bit-reversal on index vectors, save/load on reachable numeric states")
+RULE += " Also: runs of 12/40 small same-direction assignments (drift bounded by the object's own tolerance), probabilities of still-symbolic states at a complex assignment, symbols with assumptions."
 ASSUMPTIONS = ["alphabet values keep |sum|a|^2 - 1| either < 1e-9 or > 1e-2: the library's own np.isclose tolerance edge is never probed",
                "amplitudes are observed through wf[i], len(wf), wf.amplitudes, free_symbols (public surface)"]
 BOUNDS = {"quick": {"history_depth": 3, "dicke_n": 8, "flip_n": 6}, "thorough": {"history_depth": 5, "dicke_n": 10, "flip_n": 8}}
